@@ -4,6 +4,7 @@ import (
 	"bytes"
 	"crypto/rand"
 	"errors"
+	"fmt"
 	"math"
 	"math/big"
 	mrand "math/rand"
@@ -96,9 +97,15 @@ func (qfs QUICFrames) build(cryptoData []byte, baseOffset uint64) (payload []byt
 		var frameBytes []byte
 		if offset, length, cryptoOK := frame.CryptoFrameInfo(); cryptoOK {
 			lengthOffset := offset - lowestOffset
+			if lengthOffset < 0 || lengthOffset > len(cryptoData) {
+				return nil, fmt.Errorf("uquic: CRYPTO frame offset %d is out of bounds for %d bytes of CRYPTO data", offset, len(cryptoData))
+			}
 			if length == 0 {
 				// calculate length: from offset to the end of cryptoData
 				length = len(cryptoData) - lengthOffset
+			}
+			if length < 0 || length > len(cryptoData)-lengthOffset {
+				return nil, fmt.Errorf("uquic: CRYPTO frame [%d,%d) is out of bounds for %d bytes of CRYPTO data", offset, offset+length, len(cryptoData))
 			}
 			frameBytes = []byte{0x06} // CRYPTO frame type
 			// Wire offset = local offset + baseOffset for correct multi-datagram stream positioning.
